@@ -159,8 +159,10 @@ type World struct {
 	lastFault      time.Time
 	faultsLeft     int
 	faultsDone     []string
-	scrapeFrom     map[string]map[string]int // addr -> pod name -> scrapes seen at the target
+	scrapeFrom     map[string]map[string]int // addr -> pod name -> scrape attempts completed through that pod's proxy
 	assignedOversized map[string]bool
+	markAt         map[string]int // pod/addr -> attempts of that pod when the copy was marked in_transfer
+	held           []*heldScrape
 }
 
 func (w *World) logf(f string, a ...interface{}) {
@@ -213,7 +215,7 @@ func (w *World) applyTargetSpec(t *WTarget) {
 func New(tp *core.Tape, e *core.Env, sc *WScenario) (*World, error) {
 	w := &World{E: e, TP: tp, SC: sc, start: time.Now(), hashOf: map[string]uint64{}, addrOf: map[uint64]string{},
 		sdSent: map[string]time.Time{}, probeOK: map[string]time.Time{}, loseNextPost: map[string]string{}, failGetUntil: map[string]time.Time{},
-		scrapeFrom: map[string]map[string]int{}, assignedOversized: map[string]bool{}}
+		scrapeFrom: map[string]map[string]int{}, assignedOversized: map[string]bool{}, markAt: map[string]int{}}
 	lg := cycle.Quiet()
 	w.Net = simnet.New()
 	w.TG = sidecarsim.NewTargets()
@@ -406,24 +408,68 @@ func (w *World) ReleaseProbes() {
 	}
 }
 
-// RunScrapes performs every scrape that is due on every running pod.
+type heldScrape struct {
+	ch      chan struct{}
+	done    chan struct{}
+	pod     string
+	host    string
+	since   time.Time
+	cycles  int
+}
+
+func (w *World) countScrape(host, pod string) {
+	m := w.scrapeFrom[host]
+	if m == nil {
+		m = map[string]int{}
+		w.scrapeFrom[host] = m
+	}
+	m[pod]++
+}
+
+// RunScrapes performs every scrape that is due on every running pod. A drawn share of
+// them stays in flight (parked at the target) until ReleaseHeld lets them finish, so
+// that coordination cycles and target updates overlap scrapes.
 func (w *World) RunScrapes(now time.Time) {
 	for _, p := range w.CL.AllPods() {
 		if !p.Running || p.Prom == nil {
 			continue
 		}
 		for _, t := range p.Prom.Due(now) {
-			ok, _ := p.Prom.ScrapeOne(p.SC, t, now, keptOf)
-			if ok {
-				m := w.scrapeFrom[t.Host]
-				if m == nil {
-					m = map[string]int{}
-					w.scrapeFrom[t.Host] = m
-				}
-				m[p.Name]++
+			if w.SC.HeldScrapes > 0 && len(w.held) < 4 && w.TP.Bool("hold_scrape", w.SC.HeldScrapes, 8) {
+				h := &heldScrape{ch: w.TG.HoldNext(t.Host), done: make(chan struct{}), pod: p.Name, host: t.Host, since: now, cycles: len(w.Cycles)}
+				pp, tt := p, t
+				tt.NextAt = now.Add(tt.Interval)
+				go func() {
+					defer close(h.done)
+					pp.Prom.ScrapeOne(pp.SC, tt, now, keptOf)
+				}()
+				synctest.Wait()
+				w.held = append(w.held, h)
+				w.E.Probe("scrape_held_in_flight")
+				continue
 			}
+			p.Prom.ScrapeOne(p.SC, t, now, keptOf)
+			w.countScrape(t.Host, p.Name)
 		}
 	}
+}
+
+// ReleaseHeld finishes in-flight scrapes that have seen a cycle pass or are 2 s old.
+func (w *World) ReleaseHeld(now time.Time, all bool) {
+	var rest []*heldScrape
+	for _, h := range w.held {
+		if all || len(w.Cycles) > h.cycles || now.Sub(h.since) >= 2*time.Second {
+			if len(w.Cycles) > h.cycles {
+				w.E.Probe("scrape_overlapped_a_cycle")
+			}
+			close(h.ch)
+			<-h.done
+			w.countScrape(h.host, h.pod)
+		} else {
+			rest = append(rest, h)
+		}
+	}
+	w.held = rest
 }
 
 // StartCoordinator runs the real Coordinator.Run until the context ends.
@@ -441,6 +487,7 @@ func (w *World) StartCoordinator() {
 }
 
 func (w *World) Close() {
+	w.ReleaseHeld(time.Now(), true)
 	w.stop()
 	w.Net.AbortAll()
 	for i := 0; i < 4; i++ {
